@@ -489,6 +489,22 @@ class EpochRules:
                     good = isinstance(r, tuple) and r[0] == 'app' and r[1] == 'GetProtectedEpoch' and ('this->' + pf) in show(r)
                     sink.emit('C04.GUARD', 'ok' if good else 'violated', 'EpochGuard::GetProtectedEpoch reports the pinned epoch of its slot', self.loc(f, p.ret_line),
                               'returns %s' % norm(r)[:80] if good else 'returns %s, not the value the coordinator scans' % norm(r)[:80])
+        # a thread's slot holds one pin and is not re-entrant: the coordinator (ForwardGlobalEpoch and what it calls) must not
+        # create a guard of its own - entering overwrites, and leaving clears, the pin of a guard the calling thread may hold
+        coord = self.reach({self.F['ForwardGlobalEpoch']['key']})
+        n_bad = 0
+        for k in coord:
+            fk = self.fx.functions.get(k)
+            if fk is None or not (fk.get('record') or '').startswith(self.em['name']):
+                continue
+            for p in self.paths(fk):
+                for e in p.events:
+                    if e['kind'] == 'call' and e.get('callee') in (self.F['CreateEpochGuard']['key'], enter, leave):
+                        n_bad += 1
+                        sink.bad('C04.GUARD', '%s creates an epoch guard while forwarding' % sname(fk['name']), self.loc(fk, e['line']),
+                                 'the forwarding thread may hold a guard of its own: its slot has room for one pin, which the inner guard overwrites and then clears')
+        if not n_bad:
+            sink.ok('C04.GUARD', 'the coordinator never enters / leaves an epoch itself', self.loc(self.F['ForwardGlobalEpoch']), '%d functions reachable from ForwardGlobalEpoch' % len(coord))
         copy = [m for m in self.guard['methods'] if m['kind'] in ('copy_ctor', 'copy_assign') and not m['deleted']]
         sink.emit('C04.GUARD', 'ok' if not copy else 'violated', 'EpochGuard is not copyable', '%s:%s' % (self.guard['file'], self.guard['line']), '')
 
